@@ -441,13 +441,12 @@ class C05(Prop):
                         yield Case({"op": "hdr_set_ids", **base, **n}, "valid", tag="set-ids")
                     else:
                         # empty byte fields (PduConfig.empty()): constructible, not packable
+                        # (packing a header with zero-width fields is outside the statement - widths are 1/2/4/8 -
+                        #  and is therefore not judged: the code refuses it only by accident of its arithmetic)
                         yield Case({"op": "hdr_new", **a}, "valid", tag="empty-ids")
-                        yield Case({"op": "hdr_pack", **a}, "any", tag="empty-ids")
-                        yield Case({"op": "hdr_set_ids", **base, **n}, "any", tag="empty-ids")
         a = rand_hdr(rng)
         a.update(seq_w=0, seq_v=0)
         yield Case({"op": "hdr_new", **a}, "valid", tag="empty-seq")
-        yield Case({"op": "hdr_pack", **a}, "any", tag="empty-seq")
 
         # --- setters ---
         for _ in range(10000 if thorough else 400):
